@@ -7,7 +7,7 @@ import LyModel.Diff.Model
 
 Fragment (`tools/checks/c06.py: in_fragment`): no two equal instances inside one duplicate-instance sibling group
 (key-less list, state leaf-list) — there `lyd_dup_inst_next` keeps pointers into a sibling list that apply is
-changing, which a value model cannot follow (and the C itself goes wrong, finding F53).  The default flag of
+changing, which a value model cannot follow (and the C itself goes wrong, finding F123).  The default flag of
 non-presence containers is not tracked through apply (`lyd_np_cont_dflt_set/del`): both sides print it as 0 in the
 replies of `diffapply`/`apply3`, and `eqData` (= `lyd_compare_siblings`) ignores it.
 Core Lean only.
@@ -129,8 +129,8 @@ abbrev Recur := List DNode → Bool → Option Op → DNode → Except AErr (Lis
 /-- apply the children of diff node `d` to the children `kids` of the matched / created data node -/
 def applyKids (S : Schema) (fx : Fixes) (recur : Recur) (d : DNode) (inh : Option Op) (kids : List DNode) :
     Except AErr (List DNode) :=
-  -- [F56 repaired] what was copied below a moved instance only identifies it: no operation of its own, nothing to apply
-  let dkids := if fx.f56 && effOp d inh == some .replace && S.isUserOrd d.sid
+  -- [F126 repaired] what was copied below a moved instance only identifies it: no operation of its own, nothing to apply
+  let dkids := if fx.f126 && effOp d inh == some .replace && S.isUserOrd d.sid
     then (noKeys S d.kids).filter (fun c => (getMeta c "operation").isSome) else noKeys S d.kids
   dkids.foldlM (fun ks c => recur ks true (childInhOf d inh) c) kids
 
@@ -140,7 +140,7 @@ def applyUO (S : Schema) (fx : Fixes) (recur : Recur) (op : Op) (sibs : List DNo
   let found := if op == .replace then findForApply S sibs d else none
   if op == .replace && found.isNone then .error .einval else
   let m0 := match found.bind (sibs[·]?) with
-    | some m => if fx.f50 && m.isTerm then m.setDflt d.flags.dflt else m       -- [F50 repaired]
+    | some m => if fx.f120 && m.isTerm then m.setDflt d.flags.dflt else m       -- [F120 repaired]
     | none => dupSingle S d
   match getMeta d (anchorMetaName S d.sid) with
   | none => .error .einval
